@@ -317,8 +317,7 @@ def eval_case(case):
     rng = random.Random("v:" + full["vseed"] + var)
     viol, stats = [], [strat, var]
     # greedy / balanced: the isolation theorems are about the step model, which is tied to the real step here
-    with steptie.tie_for(full) as tie:
-        r1 = scen.run_real(full, timeout_s=60)
+    r1, tie_lines, tie_impl = steptie.run_with_tie(full, lambda: scen.run_real(full, timeout_s=60))
     a = outputs(r1)
     nontrivial = bool(r1.get("step_i"))
     if var == "same":
@@ -434,8 +433,7 @@ def eval_case(case):
             d = first_diff(cut(o1), cut(o2))
             if d:
                 viol.append(("isolation", "C16:added_connector_changes_existing:%s" % strat, d[:300]))
-    tied = not r1.get("timeout")
-    return {"lines": tie.lines if tied else [], "impl": tie.impl if tied else [], "violations": viol,
+    return {"lines": tie_lines, "impl": tie_impl, "violations": viol,
             "nontrivial": nontrivial, "stats": stats, "replay_case": full}
 
 
